@@ -21,6 +21,8 @@ type PropEntry struct {
 	Trusted   []string `json:"trusted_base"`
 	NotCov    []string `json:"not_covered"`
 	Bounded   []string `json:"bounded"`
+	Effects   *effectCfg `json:"effects,omitempty"`
+	EffectKind string    `json:"effect_kind,omitempty"`
 }
 
 type KnownFinding struct {
